@@ -141,16 +141,21 @@ func (c *RepoCache) Pull(remote string) error {
 		return err
 	}
 
+	// The results have to be consumed until the end: the merge goroutines keep updating the cache
+	// and would otherwise stay blocked forever, or still run after the cache has been closed.
+	var firstErr error
 	for merge := range c.MergeAll(remote) {
-		if merge.Err != nil {
-			return merge.Err
+		if firstErr != nil {
+			continue
 		}
-		if merge.Status == entity.MergeStatusInvalid {
-			return errors.Errorf("merge failure: %s", merge.Reason)
+		if merge.Err != nil {
+			firstErr = merge.Err
+		} else if merge.Status == entity.MergeStatusInvalid {
+			firstErr = errors.Errorf("merge failure: %s", merge.Reason)
 		}
 	}
 
-	return nil
+	return firstErr
 }
 
 func (c *RepoCache) SetUserIdentity(i *IdentityCache) error {
